@@ -184,6 +184,22 @@ pub fn gen_c02(rng: &mut Rng, caseid: u64, unix: bool, bound_ms: u64) -> Gen {
     for i in 0..n {
         let mut a = gen::valid_head(rng, 64);
         dedup_connection(&mut a);
+        // an eighth of the heads repeat the Connection field (only the first line decides about
+        // persistence, in the library and in the reference alike): both lines must be delivered
+        if rng.chance(1, 8) {
+            let pos = a.headers.iter().position(|(n, _)| n.eq_ignore_ascii_case("connection"));
+            let second = (case_name(rng, "Connection"), rng.pick_s(&[" TE", " x-hop", " keep-alive", " x-a, x-b"]).to_string());
+            match pos {
+                Some(p0) => {
+                    let at = rng.range(p0 + 1, a.headers.len());
+                    a.headers.insert(at, second);
+                }
+                None => {
+                    a.headers.push(("Connection".to_string(), " keep-alive".to_string()));
+                    a.headers.push(second);
+                }
+            }
+        }
         let last = i + 1 == n;
         if !last {
             make_persistent(&mut a);
@@ -291,6 +307,11 @@ pub fn gen_c03(rng: &mut Rng, caseid: u64, unix: bool, bound_ms: u64) -> Gen {
             let ch = gen::gen_chunking(rng, len, mc);
             wire_body = gen::encode_chunked(&designated, &ch);
             a.add(&case_name(rng, "Transfer-Encoding"), rng.pick_s(&[" chunked", "chunked", " Chunked"]));
+            // a fifth of them on an HTTP/1.0 request line (kept alive): the header decides
+            if rng.chance(1, 5) {
+                a.version = (1, 0);
+                a.add("Connection", " keep-alive");
+            }
             lenexp = LenExp::Exactly(None);
         }
         8 => {
@@ -424,6 +445,12 @@ pub fn gen_c09(rng: &mut Rng, caseid: u64, unix: bool, bound_ms: u64) -> Gen {
     let expecting = !v10 && rng.chance(1, 4);
     if expecting {
         a.add("Expect", " 100-continue");
+    }
+    // an eighth: the Connection field twice, `upgrade` only in the second line (the first line
+    // decides: the request is an ordinary persistent one with an ordinary body)
+    if !v10 && rng.chance(1, 8) {
+        a.add("Connection", " keep-alive");
+        a.add(&case_name(rng, "Connection"), rng.pick_s(&[" Upgrade", " upgrade, x-hop"]));
     }
     let asks = !matches!(plan.read, ReadPlan::None | ReadPlan::Upto(0));
     p.push_valid(&a, &wire_body, designated, LenExp::Any, plan, kind);
@@ -885,7 +912,9 @@ pub fn gen_c18(rng: &mut Rng, caseid: u64, unix: bool, bound_ms: u64) -> Gen {
     let chunked = expecting && rng.chance(1, 6);
     let body = gen::body_bytes(caseid, len, false);
     let k = p.exp_delivered.len();
-    let mut a = AbsReq::new("POST", &format!("/v/{:x}/{}", cid, p.reqs.len()), (1, 1)).h("Host", " h");
+    // a fifth of the (non-chunked) requests say HTTP/1.0: the statement makes no difference
+    let v10 = !chunked && rng.chance(1, 5);
+    let mut a = AbsReq::new("POST", &format!("/v/{:x}/{}", cid, p.reqs.len()), if v10 { (1, 0) } else { (1, 1) }).h("Host", " h");
     let wire_body = if chunked {
         a.add("Transfer-Encoding", " chunked");
         gen::encode_chunked(&body, &gen::gen_chunking(rng, len, 700))
@@ -950,7 +979,7 @@ pub fn gen_c18(rng: &mut Rng, caseid: u64, unix: bool, bound_ms: u64) -> Gen {
     Gen {
         case,
         judge,
-        sig: Some(format!("exp{}|len{}|{}|pred{}|chunked{}", expecting, len, plabel, npred, chunked)),
+        sig: Some(format!("exp{}|len{}|{}|pred{}|chunked{}|v10{}", expecting, len, plabel, npred, chunked, v10)),
         extra: Extra { check_100_timing: if interims == 1 { vec![k] } else { vec![] }, ..Default::default() },
     }
 }
